@@ -41,6 +41,7 @@ def run(cx, chk):
     chk.rule("C14.R3", "constructors set len/ptr/end from map.len()/(*head).next/(*tail).prev; per-list accessors delegate to the list their name says")
     chk.rule("C14.R5", "the countdown the iterators start from (map.len()) equals the number of linked nodes whenever user code can observe the cache: at every eviction-callback site every node is linked iff indexed")
     chk.rule("C14.R6", "the order the iterators expose is recency order: every use operation of RawLRU moves the hit node to the head (detach then attach), prev/next are stored only by the link primitives, and every RawLRU operation leaves each node linked iff indexed")
+    chk.rule("C14.R7", "no iterator overrides a cursor-advancing provided method other than next / next_back (size_hint and count are decided too)")
     chk.rule("C14.R4", "Keys*/Values* project the key/val component of the wrapped iterator, same direction")
     for cfg, F in cx.cfgs():
         iters = api.iterator_heads(F)
@@ -64,6 +65,7 @@ def run(cx, chk):
         countdown_source(cx, chk, cfg, F)
         recency_order(cx, chk, cfg, F)
         clone_order(cx, chk, cfg, F)
+        chk.floor("C14.R7", "iterator trait methods in %s" % cfg, overrides(cx, chk, cfg, F), 40)
         composite_refresh(cx, chk, cfg, F)
 
 
@@ -315,9 +317,38 @@ def composite_refresh(cx, chk, cfg, F):
     from . import c08, c09
     from .lib.report import Relabel
     keep = lambda key: "no-refresh" in key or "not-promoted" in key or key.endswith(("::put", "::get", "::get_mut"))     # noqa: E731
+    for short in ("TwoQueueCache", "AdaptiveCache"):
+        # ... and a non-use operation (peek*, contains, len, the per-list accessors) leaves every list as it is
+        composite.policy_hygiene(cx, Relabel(chk, {"C14.R6": "C14.R6"}), cfg, F, short, "C14.R6", "-")
     for mod, adt, rid in ((c08, "TwoQueueCache", "C08.R1"), (c09, "AdaptiveCache", "C09.R3")):
         for name in ("put", "get", "get_mut"):
             mod.route(cx, Relabel(chk, {rid: "C14.R6"}, keep=keep), cfg, F, composite.cache_method(F, api.CACHES[adt], name), name)
+
+
+VERIFIED_OVERRIDES = {"core::iter::Iterator": ("next", "size_hint", "count"), "core::iter::DoubleEndedIterator": ("next_back",), "core::iter::ExactSizeIterator": (),
+                      "core::iter::FusedIterator": ()}
+
+
+def overrides(cx, chk, cfg, F, rule="C14.R7"):
+    """the cursor of an iterator is advanced only by the methods whose bodies R1/R2 decide: an override of any other provided method of
+    Iterator / DoubleEndedIterator / ExactSizeIterator (nth, nth_back, advance_by, fold, last, len, ...) moves the cursor by code no rule
+    has looked at - e.g. an `nth` that leaves the cursor on the item it returned hands the same `&mut V` out twice"""
+    n = 0
+    for im in F.doc["impls"]:
+        if im.get("trait") not in VERIFIED_OVERRIDES or im["self_head"] not in api.iterator_heads(F):
+            continue
+        for i in im["items"]:
+            fn = F.fns.get(i)
+            if not fn or fn.get("kind") != "AssocFn":
+                continue
+            n += 1
+            if fn["name"] in VERIFIED_OVERRIDES[im["trait"]]:
+                chk.ob(rule, "%s:%s::%s" % (cfg, im["self_head"].split("::")[-1], fn["name"]), "decided by R1/R2")
+            else:
+                chk.violation(rule, "%s::%s|override" % (im["self_head"].split("::")[-1], fn["name"]),
+                              "%s overrides %s::%s: the cursor is advanced by a body that the cursor/countdown rules do not cover (only next, next_back, size_hint and count are decided)" % (
+                                  im["self_head"].split("::")[-1], im["trait"].split("::")[-1], fn["name"]), fn["span"]["file"], fn["span"]["lo"], fn["q"], None, cfg)
+    return n
 
 
 def recency_order(cx, chk, cfg, F):
@@ -330,7 +361,7 @@ def recency_order(cx, chk, cfg, F):
     for f, p, w in ntrun.walk(cx, cfg):
         n += 1
         for fd in w.findings:
-            if fd["rule"].startswith("C03.R1") and (f["q"].startswith(RAWMOD) or "<" + RAWMOD in f["q"]):
+            if fd["rule"].startswith("C03.R1"):
                 # the countdown walk needs exactly map.len() nodes between the sentinels: every operation of RawLRU must leave
                 # each node linked iff indexed (typestate engine of C03.R1, reported here for the list the iterators walk)
                 bad += 1
